@@ -10,6 +10,8 @@
 From Coq Require Import ZArith List Bool.
 From Low Require Import Model.Size Spec.SizeSpec Proofs.SizeProofs.
 From Low Require Import Model.SizeFmt Model.SizeStat Spec.SizeStatSpec Proofs.SizeStatProofs.
+From Coq Require Import Permutation.
+From Low Require Import Proofs.SizeStatOrderProofs.
 From Low Require Import Model.TypeHelper Spec.TypeHelperSpec Proofs.TypeHelperProofs.
 From Low Require Import Model.SizeGraph Spec.SizeGraphSpec Proofs.SizeGraphProofs.
 Import ListNotations.
@@ -133,6 +135,24 @@ Theorem C20_Stat_complete : forall v depth maxItem o,
   StatLines (Some v) depth maxItem o = Some (map (render o) (listing v 0 [] [])).
 Proof. exact Stat_complete. Qed.
 Print Assumptions C20_Stat_complete.
+
+(** the order in which MapKeys() hands out the keys of a (completely listed) map only permutes
+    the blocks of the report ... *)
+Theorem C20_Stat_map_order : forall ty kvs kvs' depth maxItem o,
+  Permutation kvs kvs' -> Z.of_nat (length kvs) <= maxItem ->
+  Permutation (spec_lines (Some (LMap ty kvs)) depth maxItem o)
+              (spec_lines (Some (LMap ty kvs')) depth maxItem o).
+Proof. exact Stat_map_order. Qed.
+Print Assumptions C20_Stat_map_order.
+
+(** ... and the sorted lines (what size.Stat/sorted compares) do not depend on it.
+    Stated for a map at the top; the blocks below it are arbitrary values. *)
+Theorem C20_Stat_sorted_map_order : forall ty kvs kvs' depth maxItem o,
+  Permutation kvs kvs' -> Z.of_nat (length kvs) <= maxItem ->
+  sort_lines (spec_lines (Some (LMap ty kvs)) depth maxItem o) =
+  sort_lines (spec_lines (Some (LMap ty kvs')) depth maxItem o).
+Proof. exact Stat_sorted_map_order. Qed.
+Print Assumptions C20_Stat_sorted_map_order.
 
 (** non-vacuity: struct{a []int32 (3 elements); p interface{} (nil); m map (1 entry)}, depth 2, maxItem 2:
     8 lines (10 without limits); the third element of the slice is cut by maxItem *)
